@@ -5,20 +5,23 @@ import itertools
 
 from ..core import Prop, Violation
 from .. import cffl
-from ..cffl import GATES, VERDICTS, ODD_VERDICTS, Ob, cfg_line, BUDGETS, BIG_ADVANCES, real_prompt
+from ..cffl import GATES, VERDICTS, ODD_VERDICTS, Ob, cfg_line, BUDGETS, BIG_ADVANCES, real_prompt, EXC_TOKENS, EXC_FAMILY
 from ..extract import e2
 
 PERMIT_EXEC = ("EXECUTE", "PERMIT")      # "executor permits"
 TTL = 300_000_000
 FINDING = "C07-gate-reassigned-cache"
 FINDING_CLAUSE = "unblocked_only_if_configured_gate_satisfied_by_original"
+FINDING2 = "C07-unprintable-agent-exception"
+FINDING2_CLAUSE = "agent_exception_yields_a_blocked_reply"
+HOOKS = ["none", "ok", "raise"]
 VERDICT_FIELDS = ("action", "success", "blocked", "token", "hash_ok", "issuer_ok")
 
 
 def criterion(gate: str, z: str, y: str) -> bool:
     """The property text: when may a request come back not-blocked.  z / y are the verdicts the agents actually
     returned on this request: a string, 'exc' = raised, None = that agent was not consulted at all."""
-    if z is None or y is None or z == "exc" or y == "exc":
+    if z is None or y is None or z in EXC_FAMILY or y in EXC_FAMILY:
         return False
     zp = z in PERMIT_EXEC
     yp = y == "PERMIT"                   # an approval is the assessor's PERMIT, nothing else
@@ -41,7 +44,8 @@ class C07(Prop):
     thorough_budget = 40000
     extractors = ["E2"]
     all_branches = (["set:gate", "set:cache", "set:agents", "nest:2", "nest:3", "nest:4", "nest:all-issued", "energy:refused", "k:circuit_open", "k:cache_hit", "k:agent_exc", "k:gated_success", "k:gated_neither",
-                     "k:raised", "token", "cache:shrunk", "cache:replace-or-evict"]
+                     "k:raised", "token", "cache:shrunk", "cache:replace-or-evict", "set:onblock", "set:onpermit", "hook:block",
+                     "hook:permit", "hook:raised", "exc:unprintable", "k:aborted"]
                     + [f"act:{a}" for a in ("SUCCESS", "BLOCKED", "FAILURE", "SKIPPED", "ERROR")])
     assumptions = [
         "agents return an ActionProtein whose action_type is a str and whose payload is str()-able, or raise an Exception "
@@ -54,8 +58,11 @@ class C07(Prop):
         "of 'a request with the same cache key', per-request forms assume the key injective on the prompts used (false "
         "against adversarially chosen prompts: c07_unblocked_needs_injective_key_witness); the harness uses distinct "
         "prompts with distinct digests",
-        "on_block / on_permit callbacks are None; callers do not mutate returned LoopResult objects (the cache stores the "
-        "very object it returned)",
+        "on_block / on_permit callbacks may be set, re-assigned on the live loop and may raise (run() then raises after the "
+        "result was produced, logged, cached and handed to the callback: that result is judged like a reply); callbacks and "
+        "callers do not mutate LoopResult objects (the cache stores the very object it returned) and do not re-enter the loop",
+        "an agent's BaseException that is not an Exception (KeyboardInterrupt, SystemExit, CancelledError) passes through "
+        "run(): nothing comes back, nothing passes",
         "public attributes may be re-assigned on the live loop (set op); re-assigning gate_logic is the trigger of the open "
         "finding C07-gate-reassigned-cache",
         "'assessor permits' = verdict PERMIT; 'executor permits' = verdict EXECUTE or PERMIT (DESIGN.md C07)",
@@ -73,7 +80,7 @@ class C07(Prop):
 
     # --- generation --------------------------------------------------------------------------------------
     def generate(self, rng, tier, n):
-        allv = VERDICTS + ["exc"] + ODD_VERDICTS
+        allv = VERDICTS + ["exc"] + ODD_VERDICTS + list(EXC_TOKENS)
         yield self._cap_case(1003)
         for i in range(n):
             gate = rng.choice(GATES)
@@ -98,6 +105,8 @@ class C07(Prop):
             budget = rng.choice(BUDGETS) if rng.random() < 0.45 else None
             lines = [cfg_line(gate, breaker, rng.choice([1, 2, 3, 5]), rng.choice([0, 1_000_000, 60_000_000]), cache, ttl,
                               budget)]
+            if rng.random() < 0.2:      # callbacks (they may raise) set on the live loop before the first request
+                lines += [f"set onblock {rng.choice(HOOKS)}", f"set onpermit {rng.choice(HOOKS)}"]
             npr = rng.choice([1, 2, 3, 5])
             for _ in range(rng.choice([2, 3, 4, 6, 8, 12])):
                 u = rng.random()
@@ -124,8 +133,8 @@ class C07(Prop):
                 elif u < 0.97:
                     lines.append("resetcb")
                 else:   # a public attribute of the live loop is re-assigned
-                    k = rng.choice(["gate", "cache", "ttl", "breaker", "thr", "tmo", "agents", "agents"])
-                    v = {"gate": rng.choice(GATES), "cache": rng.choice([0, 1]), "ttl": rng.choice([TTL, 1_000_000, 1, 0]),
+                    k = rng.choice(["gate", "cache", "ttl", "breaker", "thr", "tmo", "agents", "agents", "onblock", "onpermit", "onpermit"])
+                    v = {"onblock": rng.choice(HOOKS), "onpermit": rng.choice(HOOKS), "gate": rng.choice(GATES), "cache": rng.choice([0, 1]), "ttl": rng.choice([TTL, 1_000_000, 1, 0]),
                          "breaker": rng.choice([0, 1]), "thr": rng.choice([1, 2, 5]), "tmo": rng.choice([0, 1_000_000, 60_000_000]),
                          "agents": 0}[k]
                     lines.append(f"set {k} {v}")
@@ -140,7 +149,8 @@ class C07(Prop):
             if rng.random() < 0.6:
                 z, y = rng.choice(["EXECUTE", "PERMIT", "BLOCK", "FAILURE"]), rng.choice(["PERMIT", "PERMIT", "BLOCK", "DEFER"])
             else:
-                z, y = rng.choice(VERDICTS + ["exc", "weird"]), rng.choice(VERDICTS + ["exc", "weird"])
+                vs = VERDICTS + ["exc", "weird", "exc", "excS", "excK", "excB"]
+                z, y = rng.choice(vs), rng.choice(vs)
             d = rng.choice([0, 0, 0, 1, 1_000_000] + ([ttl - 1, ttl, ttl + 1] if ttl > 1 else [2]))
             toks += [p, z, y, rng.choice("eeaaEA"), str(d)]
         return " ".join(toks)
@@ -242,6 +252,24 @@ class C07(Prop):
         spaces.append({"name": "overlapping requests on one loop (model: phase history): request A (6 gate logics x 7 x 7 "
                                "verdicts) during whose executor / assessor call request B (3 verdict pairs) is handled "
                                "completely - re-entrantly, or by a second thread -, then B, A, B are asked again", "cases": over})
+        exck = []
+        for g in GATES:
+            for z, y in (("excS", "PERMIT"), ("EXECUTE", "excS"), ("PERMIT", "excS"), ("excB", "PERMIT"), ("EXECUTE", "excB"),
+                         ("excK", "PERMIT"), ("EXECUTE", "excK"), ("excR", "excR"), ("PERMIT", "excR"), ("excS", "excB")):
+                for hb, hp in (("none", "none"), ("raise", "raise")):
+                    exck.append({"lines": [cfg_line(g, True, 5, 60_000_000, True, TTL), f"set onblock {hb}", f"set onpermit {hp}",
+                                           f"run 1 {z} {y}", f"run 1 {z} {y}", "run 1 PERMIT PERMIT", "run 1 BLOCK BLOCK"],
+                                 "note": "agent exceptions of every kind: nothing passes, nothing is cached"})
+            for hb, hp in itertools.product(HOOKS, repeat=2):
+                for z, y in (("EXECUTE", "PERMIT"), ("EXECUTE", "BLOCK"), ("FAILURE", "PERMIT"), ("DEFER", "PERMIT"), ("PERMIT", "EXECUTE")):
+                    exck.append({"lines": [cfg_line(g, True, 5, 60_000_000, True, TTL), f"set onblock {hb}", f"set onpermit {hp}",
+                                           f"run 1 {z} {y}", "run 1 BLOCK BLOCK", "run 2 PERMIT PERMIT", "set onpermit ok",
+                                           "run 2 BLOCK BLOCK", "run 3 PERMIT PERMIT", "run 3 exc exc"],
+                                 "note": "on_block / on_permit callbacks {unset, returns, raises}: a result whose delivery "
+                                         "failed in the callback is cached like any other; cache hits call no callback"})
+        spaces.append({"name": "all 6 gate logics x agent exception kinds {KeyError(), __repr__ raises, __str__ raises, "
+                               "BaseException; executor / assessor} and x on_block / on_permit callbacks {unset, returns, raises}^2 "
+                               "x 5 verdict pairs, each followed by repeats", "cases": exck})
         if tier == "thorough":
             more = []
             for g in GATES:
@@ -265,12 +293,22 @@ class C07(Prop):
         def judge(p, o, z, y, raw, idx, cands):
             """one reply (the request for prompt p, whose agents returned z / y: 'exc' = raised, None = not consulted).
             Returns its verdict when it is a reply the agents were consulted for (a possible original)."""
-            if o.raised is not None:
-                # nothing came back, so nothing passed; only an *encodable* prompt must always get a reply
-                if not p.startswith("u"):
-                    out.append(Violation("run_returns_a_result", "a LoopResult (agent exceptions become blocked ERROR)",
+            if o.raised is not None and not o.has_result:
+                # nothing came back, so nothing passed.  A reply is owed unless the prompt cannot be encoded or an agent
+                # raised a BaseException that is no Exception (nobody expects KeyboardInterrupt to become a verdict)
+                if p.startswith("u") or "excB" in (z, y):
+                    return None
+                if "excS" in (z, y):
+                    # "any agent exception yields blocked": an exception that cannot be rendered as text escapes the
+                    # handler of run() (open finding C07-unprintable-agent-exception)
+                    out.append(Violation(FINDING2_CLAUSE, "a blocked LoopResult (agent exceptions become blocked ERROR)",
                                          raw, idx))
+                    return None
+                out.append(Violation("run_returns_a_result", "a LoopResult (agent exceptions become blocked ERROR)",
+                                     raw, idx))
                 return None
+            # (o.raised with a result: a CALLBACK raised after the request was handled completely; the result the
+            #  callback was given - logged and cached by then - is judged like a reply)
             verdict = (o.action, o.success, o.blocked, o.token, o.issuer)
             if o.action == "CIRCUIT_OPEN":
                 if not o.blocked:
@@ -297,7 +335,7 @@ class C07(Prop):
                 if not o.blocked and not criterion(gate, z, y):
                     out.append(Violation("unblocked_only_if_gate_satisfied",
                                          f"blocked (gate={gate} executor={z} assessor={y})", raw, idx))
-                if (z == "exc" or y == "exc") and not o.blocked:
+                if (z in EXC_FAMILY or y in EXC_FAMILY) and not o.blocked:
                     out.append(Violation("exception_blocks", "blocked", raw, idx))
                 if o.token != "none" and y != "PERMIT":
                     out.append(Violation("token_only_if_assessor_permitted", "no token", raw, idx))
@@ -309,11 +347,13 @@ class C07(Prop):
                     out.append(Violation("token_names_assessor", "issuer=assessor", raw, idx))
             return fresh
 
+        permit_calls = 0
         for idx, (line, raw) in enumerate(zip(case["lines"], obs)):
             t = line.split()
             if t[0] == "cfg" and len(t) in (7, 8, 9):
                 gate, cache_on = (t[1] if t[1] in GATES else "and"), t[5] == "1"
                 orig = {}
+                permit_calls = 0
                 continue
             if t[0] == "set" and len(t) == 3 and raw != "bad-op":
                 # the configuration the clauses are read with changes; what was cached stays the original of its prompt
@@ -346,21 +386,37 @@ class C07(Prop):
                     if f is not None and cache_on:
                         fresh.setdefault(p, []).append(f)
                 orig.update(fresh)
+                permit_calls = Ob("- ; " + stats).permit_hook_calls
                 continue
             if t[0] != "run" or len(t) != 4 or raw == "bad-op":
                 continue
             z, y = actual[idx]       # what the agents really answered on this request (None = not consulted)
-            f = judge(t[1], Ob(raw), z, y, raw, idx, orig.get(t[1], []))
+            o = Ob(raw)
+            f = judge(t[1], o, z, y, raw, idx, orig.get(t[1], []))
             if f is not None and cache_on:       # (a reply obtained while the cache is switched off is nobody's original:
                 orig[t[1]] = [f]                 #  an entry filed earlier stays the original of later cached replies)
-        self._finding_only[tuple(case["lines"])] = bool(out) and all(v.clause == FINDING_CLAUSE for v in out)
+            # the on_permit callback is the other way the guard announces that a request passes: it is told so only
+            # about a request that was decided just now by verdicts satisfying the gate logic
+            if o.permit_hook_calls != permit_calls:
+                if o.permit_hook_calls != permit_calls + 1 or not o.has_result or o.blocked or o.cached or not criterion(gate, z, y):
+                    out.append(Violation("on_permit_only_for_a_request_that_passes",
+                                         f"no on_permit call (gate={gate} executor={z} assessor={y})", raw, idx))
+                permit_calls = o.permit_hook_calls
+        known = {FINDING_CLAUSE: FINDING, FINDING2_CLAUSE: FINDING2}
+        self._finding_only[tuple(case["lines"])] = (
+            sorted({known[v.clause] for v in out}) if out and all(v.clause in known for v in out) else [])
         return out
 
     def trigger(self, case):
         """open finding C07-gate-reassigned-cache: the gate logic is re-assigned on a live loop (`set gate`) and every
         violation of the case is a cached reply judged by the NEW logic"""
-        if any(l.startswith("set gate ") for l in case["lines"]) and self._finding_only.get(tuple(case["lines"])):
+        only = self._finding_only.get(tuple(case["lines"])) or []
+        if FINDING in only and any(l.startswith("set gate ") for l in case["lines"]):
             return FINDING
+        if FINDING2 in only and any(" excS" in l for l in case["lines"]):
+            # open finding C07-unprintable-agent-exception: an agent raised an Exception whose __str__ raises, run() raised
+            # instead of answering blocked, and nothing else is wrong with the case
+            return FINDING2
         return None
 
     def _oracle_reenter(self, info, idx, out):
